@@ -12,7 +12,7 @@ from typing import Any, Callable
 
 from .consts import UNKNOWN
 from .ctx import Ctx
-from .loader import AnalysisError, FuncInfo, norm
+from .loader import AnalysisError, FuncInfo, tnorm as norm
 
 
 class Refused(Exception):
